@@ -302,6 +302,23 @@ func genExtract(r *rand.Rand) logqIn {
 				lb := []string{"l1", "l2", "a"}[len(st.Exprs)%3]
 				st.Exprs = append(st.Exprs, jexprIn{Label: B(lb), Path: genPath(r, docs[r.Intn(len(docs))])})
 			}
+			if r.Intn(3) == 0 {
+				// every expression maps a top-level key to a label of the same name (`| json a="a", k="k"`): still path
+				// expressions (a null yields "", a number its text), sometimes beside a bare label
+				st.Exprs = nil
+				for _, key := range []string{"a", "b", "k"}[r.Intn(2) : 2+r.Intn(2)] {
+					st.Exprs = append(st.Exprs, jexprIn{Label: B(key), Path: []selIn{{T: "key", Key: Ints(B(key))}}})
+				}
+				if r.Intn(3) == 0 {
+					st.Labels = append(st.Labels, B("b"))
+				}
+				// an older label of that name must be overwritten, also by a null
+				for i := range in.Recs {
+					if r.Intn(2) == 0 {
+						in.Recs[i].Attrs = append(in.Recs[i].Attrs, [2][]int{B(pick(r, []string{"a", "k"})), B("old")})
+					}
+				}
+			}
 		}
 		in.Stages = []stageIn{st}
 	case 2: // unpack
